@@ -198,3 +198,18 @@ package git
 //@   props C05
 //@   modifies fresh
 //@   at call git.gitNoLFS:1 assert len(arg0__) == 4 && arg0__[0] == "for-each-ref" && arg0__[1] == "--sort=-committerdate" && arg0__[3] == "refs"
+
+// C03: a URL given to `git push` is taken for a configured remote - whose
+// remote-tracking refs then bound what is scanned, and whose endpoint receives
+// the objects - only if that remote has this one URL and no other; otherwise
+// the URL stays what it is (nothing is excluded, the objects go to that URL).
+//@ func MapRemoteURL
+//@   props C03
+//@   modifies fresh, ghost lastremoteurls
+//@   ensures result1 ==> has(typed(lastremoteurls(), "map[string][]string"), result0) && len(typed(lastremoteurls(), "map[string][]string")[result0]) == 1 && typed(lastremoteurls(), "map[string][]string")[result0][0] == url
+//@   ensures !result1 ==> result0 == url
+//@ func RemoteURLs
+//@   assumed
+//@   props C03
+//@   modifies fresh, ghost lastremoteurls
+//@   ensures result0 == typed(lastremoteurls(), "map[string][]string")
